@@ -251,6 +251,56 @@ class BufImpl(ImplBase):
         raise ValueError(op)
 
 
+class PrqImpl:
+    """PriorityReqStore: the harness is the only client; requests are SimPy events."""
+    def __init__(self, cap):
+        from factorysimpy.base.priority_req_store import PriorityReqStore
+        self.env = RecEnv()
+        self.store = PriorityReqStore(self.env, capacity=int(cap))
+        self.reqs = []           # request events by id
+        self.mark = 0
+        self.items = {}
+
+    def item(self, hid, kind):
+        if hid not in self.items:
+            it = Item(f"it{hid}"); it.hid = hid; it.kind = kind
+            self.items[hid] = it
+        return self.items[hid]
+
+    def newly_fired(self):
+        idx = {id(r): i for i, r in enumerate(self.reqs)}
+        out = []
+        for ev, _ in self.env.fired_log[self.mark:]:
+            i = idx.get(id(ev))
+            if i is None: continue
+            v = ev.value
+            out.append(f"{i}:{v.hid}" if hasattr(v, "hid") else f"{i}")
+        self.mark = len(self.env.fired_log)
+        return out
+
+    def do(self, op):
+        k = op[0]; n0 = len(self.reqs)
+        try:
+            if k == "pput":
+                self.reqs.append(self.store.put(self.item(op[2], op[3]), priority=op[1]))
+            elif k == "pget":
+                self.reqs.append(self.store.get(priority=op[1]))
+            elif k == "cancel":
+                if op[1] < len(self.reqs): self.reqs[op[1]].cancel()
+            elif k == "kstep":
+                if self.env._queue: self.env.step()
+            elif k == "settle":
+                n = 0
+                while self.env._queue:
+                    self.env.step(); n += 1
+                    if n > 100000: raise RuntimeError("livelock")
+            else:
+                raise ValueError(op)
+        except Exception as e:
+            return f"err {type(e).__name__}"
+        return f"req {n0} | {' '.join(self.newly_fired())} | {len(self.store.items)}"
+
+
 def make_impl(header):
     w = header.split()
     assert w[0] == "new"
@@ -258,6 +308,8 @@ def make_impl(header):
         return PosImpl(w[2], w[3] != "0", w[4] != "0", int(w[5]))
     if w[1] in ("buf", "bufedge"):
         return BufImpl(w[1], w[2], w[3])
+    if w[1] == "prq":
+        return PrqImpl(w[2])
     raise ValueError(header)
 
 
